@@ -1,3 +1,4 @@
--- This module serves as the root of the `Gql` library.
--- Import modules here that should be built as part of the library.
-import Gql.Basic
+-- Root of the `Gql` library.  The per-property models were built independently and some of them
+-- declare the same names (e.g. `Gql.Async.Path`), so there is deliberately no module importing all of
+-- them: `./setup.sh` builds every `Gql.Props.Cxx` module and every driver executable instead.
+import Gql.Text.Out
